@@ -74,11 +74,13 @@ func ClearTextPassword(validate func(ctx context.Context, database, username, pa
 
 		if !valid {
 			err = pgerror.WithCode(errors.New("invalid username/password"), codes.InvalidPassword)
-			if werr := ErrorCode(writer, err); werr != nil {
+			// NOTE: the connection is closed once the rejection has been
+			// reported, the client is never told that the server is ready.
+			if werr := errorResponse(writer, err); werr != nil {
 				return ctx, werr
 			}
 
-			// NOTE: the rejection itself has to be returned, ErrorCode only
+			// NOTE: the rejection itself has to be returned, errorResponse only
 			// reports whether the error could be written to the client.
 			return ctx, err
 		}
